@@ -618,7 +618,12 @@ impl DtlsInner {
                 ctx.read_epoch = ctx.read_epoch.saturating_add(1);
             }
             ContentType::ApplicationData => {
-                let _ = incoming_data_tx.send(payload);
+                // Application data is only meaningful once the peer's Finished has been
+                // verified; earlier (or after a failure) it is dropped, the upper layer
+                // retransmits.
+                if matches!(*self.state.lock(), DtlsState::Connected(..)) {
+                    let _ = incoming_data_tx.send(payload);
+                }
             }
             ContentType::Handshake => {
                 self.process_handshake_payload(payload, authenticated, ctx, certificate, is_client)
